@@ -363,7 +363,7 @@ class Concurrent(SubCheck):
                 ixs[0][k] = mkv(v)
             return ixs, caches
 
-        calls, sched = run_scheduled(env, case['progs'], case['schedule'], open_clients, do_conc, 'C12', warm=lambda ix: ix.cache._sql)
+        calls, sched = run_scheduled(env, case['progs'], case['schedule'], open_clients, do_conc, 'C12', warm=lambda ix: ix.cache._sql, final_ops=[('getitem', 'x'), ('getitem', 'y'), ('len',), ('popitem', False), ('popitem', False)])
         if sched.limit_hit:
             return {'nontrivial': False, 'classes': ['step-limit']}
         mark_interleaved(calls, sched.trace)
